@@ -64,6 +64,15 @@ def generate(rng, tier):
                 ast = [ast[0]]
             typ, none_items = muxgen.INT, False
             trace = muxgen.gen_trace(rng, typ, nkeys=rng.choice([2, 3]), sorted_=True, bursts=True)
+        if rng.random() < 0.06:
+            # a tee_map branch that legitimately emits None for some items: a join must not read None as "no value yet"
+            nb = [['map', ['noneif', g.int_pred()]]] + ([['fill_none', enc(rng.randint(20, 30))]] if rng.random() < 0.2 else [])
+            other = [rng.choice([['identity'], ['map', g.int_map()], ['scan', ['add'], enc(0), 0, None], ['count', 0]])]
+            brs = [nb, other] if rng.random() < 0.5 else [other, nb]
+            ast = [['tee', rng.choice(['zip', 'zip', 'combine_latest', 'merge']), brs]] + \
+                  ([['map', ['nth', rng.randint(0, 1)]]] if rng.random() < 0.3 else [])
+            typ, none_items = muxgen.INT, False
+            trace = muxgen.gen_trace(rng, typ, max_items=rng.choice([None, 5]))
         kind = 'groupby' if rng.random() < 0.2 else 'keys'
         cases.append({'ast': ast, 'trace': trace, 'kind': kind,
                       'km': ['isnone'] if none_items else (['gt', enc(2.0)] if typ == muxgen.FLT else g.int_key())})
